@@ -185,3 +185,34 @@ package schema
 //@   loop 3 range flowEdges
 //@     invariant len(edges) <= rk3
 //@     exit ensures [at-most-one-edge-per-sequence-flow] len(edges) <= len(flowEdges)
+
+// Row assignment within one level: the nodes processed so far hold rows that are all marked occupied, are
+// non-negative, and differ for nodes with different ids — the collision-avoidance of the layout.  (That the sorted
+// level list is a permutation of the level's nodes, and that ids are unique, is what turns this into "no two nodes of
+// a level share a row"; see the not-decided items of C19.)
+//@ func computeFlowNodeRows
+//@   prop C19
+//@   requires forall a int :: off(nodes) <= a && a < off(nodes) + len(nodes) ==> at(nodes, a) != nil
+//@   loop 1 range edges
+//@     invariant rows != nil && incoming != nil
+//@   loop 2 range nodes
+//@     invariant rows != nil && incoming != nil
+//@   loop 3 for
+//@     invariant rows != nil && incoming != nil
+//@     invariant forall a int :: off(nodes) <= a && a < off(nodes) + len(nodes) ==> at(nodes, a) != nil
+//@   loop 4 range nodes
+//@     invariant rows != nil && incoming != nil && fresh(base(levelNodes))
+//@     invariant forall a int :: off(nodes) <= a && a < off(nodes) + len(nodes) ==> at(nodes, a) != nil
+//@     invariant forall b int :: off(levelNodes) <= b && b < off(levelNodes) + len(levelNodes) ==> at(levelNodes, b) != nil
+//@   loop 5 range levelNodes
+//@     invariant rows != nil && incoming != nil && occupied != nil
+//@     invariant forall b int :: off(levelNodes) <= b && b < off(levelNodes) + len(levelNodes) ==> at(levelNodes, b) != nil
+//@     invariant [assigned-rows-are-marked-occupied] forall b int :: off(levelNodes) <= b && b < off(levelNodes) + rk5 ==>
+//@                 has(rows, at(levelNodes, b).id) && has(occupied, rows[at(levelNodes, b).id]) && rows[at(levelNodes, b).id] >= 0
+//@     invariant [different-nodes-of-a-level-get-different-rows] forall b int, c int :: off(levelNodes) <= b && b < c && c < off(levelNodes) + rk5 &&
+//@                 at(levelNodes, b).id != at(levelNodes, c).id ==> rows[at(levelNodes, b).id] != rows[at(levelNodes, c).id]
+//@     exit ensures [no-row-collision-within-a-level] forall b int, c int :: off(levelNodes) <= b && b < c && c < off(levelNodes) + len(levelNodes) &&
+//@                 at(levelNodes, b).id != at(levelNodes, c).id ==> rows[at(levelNodes, b).id] != rows[at(levelNodes, c).id]
+//@   loop 6 for
+//@     invariant r >= 0 && rows != nil && incoming != nil && occupied != nil
+//@     exit ensures [the-chosen-row-is-free] !has(occupied, r) && r >= 0
